@@ -63,13 +63,45 @@ pub fn parse_rootdefinition_enum(
                         .register_type(ir::TypeLayer::Scalar(ir::ScalarType::Int32)),
                 ),
                 Some(last_value) => {
-                    let next_value = match last_value.0 {
-                        ir::Constant::IntLiteral(v) => ir::Constant::IntLiteral(v + 1),
-                        ir::Constant::Int32(v) => ir::Constant::Int32(v + 1),
-                        ir::Constant::UInt32(v) => ir::Constant::UInt32(v + 1),
-                        _ => panic!("Unexpected constant type in enum value"),
+                    // Stay in the type of the previous value while the next value fits in it
+                    let next_typed = match last_value.0 {
+                        ir::Constant::Int32(v) if v < i32::MAX => Some(ir::Constant::Int32(v + 1)),
+                        ir::Constant::UInt32(v) if v < u32::MAX => {
+                            Some(ir::Constant::UInt32(v + 1))
+                        }
+                        _ => None,
                     };
-                    (next_value, last_value.1)
+                    match next_typed {
+                        Some(next_value) => (next_value, last_value.1),
+                        None => {
+                            // Otherwise carry on with an untyped value
+                            // The range check at the end of the enum then picks a type that holds every value or rejects it
+                            let wide = match last_value.0 {
+                                ir::Constant::Bool(v) => v as i128,
+                                ir::Constant::IntLiteral(v) => v,
+                                ir::Constant::Int32(v) => v as i128,
+                                ir::Constant::UInt32(v) => v as i128,
+                                _ => {
+                                    return Err(TyperError::EnumValueMustBeInteger(
+                                        member.name.location,
+                                    ));
+                                }
+                            };
+                            let next_value = match wide.checked_add(1) {
+                                Some(v) => ir::Constant::IntLiteral(v),
+                                None => {
+                                    return Err(TyperError::EnumValueMustBeInteger(
+                                        member.name.location,
+                                    ));
+                                }
+                            };
+                            let literal_ty = context
+                                .module
+                                .type_registry
+                                .register_type(ir::TypeLayer::Scalar(ir::ScalarType::IntLiteral));
+                            (next_value, literal_ty)
+                        }
+                    }
                 }
             }
         };
